@@ -38,7 +38,8 @@ def strategy(tier):
                                       # once or for a whole retry window, the n-th sbatch fails once
                                       "faults": st.lists(st.one_of(
                                           st.fixed_dictionaries({"kind": st.sampled_from(["squeue_fail_series", "squeue_fail_series",
-                                                                                           "squeue_fail_once"]), "nth": st.integers(0, 12)}),
+                                                                                           "squeue_fail_once"]), "nth": st.integers(0, 12),
+                                                                 "len": st.sampled_from([7, 7, 14, 21])}),
                                           st.fixed_dictionaries({"kind": st.just("sbatch_fail_once"), "nth": st.integers(0, 4)})),
                                           max_size=2)})
 
